@@ -3,6 +3,7 @@ package props
 import (
 	"encoding/json"
 	"fmt"
+	"math"
 	"math/big"
 	"strings"
 	"unsafe"
@@ -118,6 +119,19 @@ func init() {
 			_, err := d.SetFloat64(0.1)
 			return "", 0, err
 		}),
+		mk("SetFloat64(NaN)", func(c *apd.Context, d *apd.Decimal) (string, apd.Condition, error) {
+			_, err := d.SetFloat64(math.NaN())
+			return "", 0, err
+		}),
+		mk("SetFloat64(-Inf)", func(c *apd.Context, d *apd.Decimal) (string, apd.Condition, error) {
+			_, err := d.SetFloat64(math.Inf(-1))
+			return "", 0, err
+		}),
+		mk("SetFloat64(-0)", func(c *apd.Context, d *apd.Decimal) (string, apd.Condition, error) {
+			_, err := d.SetFloat64(math.Copysign(0, -1))
+			return "", 0, err
+		}),
+		mk("Scan(NaN float64)", func(c *apd.Context, d *apd.Decimal) (string, apd.Condition, error) { return "", 0, d.Scan(math.NaN()) }),
 		mk("Scan(int64)", func(c *apd.Context, d *apd.Decimal) (string, apd.Condition, error) { return "", 0, d.Scan(int64(77)) }),
 		mk("Scan(float64)", func(c *apd.Context, d *apd.Decimal) (string, apd.Condition, error) { return "", 0, d.Scan(2.5) }),
 		mk("Compose(finite)", func(c *apd.Context, d *apd.Decimal) (string, apd.Condition, error) {
